@@ -9,7 +9,9 @@ debug trace on every run) — with the semantic actions of the value-expression
 sub-grammar, recognised by their text in grammar.go, building the same AST type.
 
 NOT proved: that the two parsers are equal on all token lists (`LRAgrees`; the
-standard LR-correctness argument for this grammar was out of reach).  It is
+standard LR-correctness argument for this grammar was out of reach).  PROVED: the
+instances for scalar expressions and empty collections (`lr_agrees_on_scalars`,
+`format_then_goyacc_parse_scalar`, unconditional).  It is
 CHECKED on every run of `./check C08`: ≥ 12 000 generated value expressions and
 token-level mutants per quick run, model against model (`C08.lrcmp`), both also
 against `Parser.ParseValExp`'s accept/reject; and EXHAUSTIVELY for every token
@@ -20,6 +22,7 @@ at hand) as an explicit hypothesis.
 -/
 import Props.C09
 import Martian.LexerLRSem
+import Proofs.LexerLRScalar
 import Proofs.TieC09
 
 namespace Props.C09
@@ -73,6 +76,25 @@ example :
     optExpEq (parseLR [.punct 0x5B, .int [0x31], .punct 0x2C, .punct 0x2C, .punct 0x5D])
       (parseToks [.punct 0x5B, .int [0x31], .punct 0x2C, .punct 0x2C, .punct 0x5D]) = true ∧
     (parseLR [.id [0x58], .punct 0x2E, .id [0x79]]).isNone = true := by decide +kernel
+
+/-! ## proved instances of `LRAgrees` -/
+
+/-- `LRAgrees` holds on the token list of every printed SCALAR expression
+(integers, floats, strings, booleans, null) and of the empty collections `[]`,
+`{}`, for every token text: the driver run on the token kinds is evaluated by
+the kernel on the regenerated tables, the semantic actions are replayed on the
+symbolic token text. -/
+theorem lr_agrees_on_scalars (e : Exp) (hs : isScalar e = true) : parseLR (toks e) = parseToks (toks e) :=
+  lr_agrees_scalar e hs
+
+/-- **format, then the goyacc parser — UNCONDITIONAL for scalar expressions and
+empty collections**: no `LRAgrees` hypothesis. -/
+theorem format_then_goyacc_parse_scalar (e : Exp) (hw : wf e = true) (hs : isScalar e = true) :
+    parseValExpLR (fmt [] e) = some (norm e) :=
+  Martian.LexerLR.format_then_goyacc_parse_scalar e hw hs
+
+example : isScalar (.int (-5)) = true ∧ isScalar (.str [0x61]) = true ∧ isScalar (.arr []) = true ∧
+    isScalar (.arr [.int 1]) = false := by decide
 
 /-! ## call statements (`file: call_stm`) -/
 
